@@ -8,7 +8,7 @@ from common import from_replay, to_replay  # noqa: F401
 COQ_MODULE = "Prop_C12"
 THEOREMS = ["C12_fault_kills_that_lock", "C12_try_fault_kills_that_lock", "C12_unlock_fault_kills_that_lock",
             "C12_killed_lock_refuses", "C12_kill_is_forever", "C12_refuted_retry_handler",
-            "C12_refuted_try_rollback", "C12_refuted_scoped_release_loop"]
+            "C12_refuted_try_rollback", "C12_refuted_scoped_release_loop", "C12_guard_acquire_one_fault", "C12_guard_drop_one_fault", "C12_guard_acquire_any_fault_position", "C12_single_lock_one_fault"]
 CASE_MODULES = ["Monitors"]
 CHECK_WITHOUT_PROOF = True
 TRUSTED = common.TRUSTED_COMMON
